@@ -4,7 +4,10 @@
 
 use crate::facade::{spawn, thread_rng, yield_now, Condvar, Mutex, Rng};
 use crate::reg;
-use futures_buffered::{FuturesOrdered, FuturesUnordered, FuturesUnorderedBounded, MergeBounded, MergeUnbounded};
+use futures_buffered::{
+    join_all, BufferedStreamExt, FuturesOrdered, FuturesOrderedBounded, FuturesUnordered, FuturesUnorderedBounded, JoinAll, MergeBounded,
+    MergeUnbounded,
+};
 use futures_core::Stream;
 use std::future::Future;
 use std::pin::Pin;
@@ -27,7 +30,7 @@ pub static EARLY_DROPS: AtomicU64 = AtomicU64::new(0);
 pub static FRESH_WAKERS: AtomicU64 = AtomicU64::new(0);
 pub static PARKS: AtomicU64 = AtomicU64::new(0);
 pub static ORDER_HASHES: std::sync::Mutex<Option<std::collections::HashSet<u64>>> = std::sync::Mutex::new(None);
-pub static SUBJECTS: [AtomicU64; 5] = [AtomicU64::new(0), AtomicU64::new(0), AtomicU64::new(0), AtomicU64::new(0), AtomicU64::new(0)];
+pub static SUBJECTS: [AtomicU64; 9] = [AtomicU64::new(0), AtomicU64::new(0), AtomicU64::new(0), AtomicU64::new(0), AtomicU64::new(0), AtomicU64::new(0), AtomicU64::new(0), AtomicU64::new(0), AtomicU64::new(0)];
 
 // plain flags for statistics only (relaxed; never used for synchronisation)
 static IN_POLL_FLAG: std::sync::atomic::AtomicBool = std::sync::atomic::AtomicBool::new(false);
@@ -172,7 +175,30 @@ impl Stream for ChanStream {
 // ---------------------------------------------------------------------------------------------
 // subjects
 
+/// Upstream of the adapters: hands out the futures one by one, always ready.
+struct FutSource {
+    futs: Vec<Option<ChanFut>>,
+    next: usize,
+}
+impl Stream for FutSource {
+    type Item = ChanFut;
+    fn poll_next(mut self: Pin<&mut Self>, _cx: &mut Context<'_>) -> Poll<Option<ChanFut>> {
+        let i = self.next;
+        if i < self.futs.len() {
+            self.next += 1;
+            Poll::Ready(self.futs[i].take())
+        } else {
+            Poll::Ready(None)
+        }
+    }
+}
+impl Unpin for FutSource {}
+
 enum Subj {
+    Fob(FuturesOrderedBounded<ChanFut>),
+    Bu(Pin<Box<futures_buffered::BufferUnordered<FutSource>>>),
+    Bo(Pin<Box<futures_buffered::BufferedOrdered<FutSource>>>),
+    Ja(JoinAll<ChanFut>),
     Fub(FuturesUnorderedBounded<ChanFut>),
     Fu(FuturesUnordered<ChanFut>),
     Fo(FuturesOrdered<ChanFut>),
@@ -181,6 +207,7 @@ enum Subj {
 }
 
 enum Out {
+    Joined(Vec<usize>),
     Pending,
     Fut(usize),
     Item(usize, u32),
@@ -190,6 +217,25 @@ enum Out {
 impl Subj {
     fn poll(&mut self, cx: &mut Context<'_>) -> Out {
         match self {
+            Subj::Fob(s) => match Pin::new(s).poll_next(cx) {
+                Poll::Pending => Out::Pending,
+                Poll::Ready(Some(i)) => Out::Fut(i),
+                Poll::Ready(None) => Out::End,
+            },
+            Subj::Bu(s) => match s.as_mut().poll_next(cx) {
+                Poll::Pending => Out::Pending,
+                Poll::Ready(Some(i)) => Out::Fut(i),
+                Poll::Ready(None) => Out::End,
+            },
+            Subj::Bo(s) => match s.as_mut().poll_next(cx) {
+                Poll::Pending => Out::Pending,
+                Poll::Ready(Some(i)) => Out::Fut(i),
+                Poll::Ready(None) => Out::End,
+            },
+            Subj::Ja(s) => match Pin::new(s).poll(cx) {
+                Poll::Pending => Out::Pending,
+                Poll::Ready(v) => Out::Joined(v),
+            },
             Subj::Fub(s) => match Pin::new(s).poll_next(cx) {
                 Poll::Pending => Out::Pending,
                 Poll::Ready(Some(i)) => Out::Fut(i),
@@ -370,9 +416,9 @@ pub fn scenario(mode: Mode, max_threads: usize, max_children: usize) {
     COLLECTION_GONE.with(|p| p.set(false));
     EXECS.fetch_add(1, Ordering::Relaxed);
     let mut rng = thread_rng();
-    let kind = rng.gen_range(0..5usize);
+    let kind = rng.gen_range(0..9usize);
     SUBJECTS[kind].fetch_add(1, Ordering::Relaxed);
-    let is_stream = kind >= 3;
+    let is_stream = kind == 3 || kind == 4;
     let n = rng.gen_range(1..=max_children);
     let n_threads = rng.gen_range(1..=max_threads);
     let chans: Vec<(Arc<Chan>, bool, u32)> = (0..n)
@@ -435,6 +481,34 @@ pub fn scenario(mode: Mode, max_threads: usize, max_children: usize) {
             // bounded merge: capacity is fixed by collect()
             Subj::Mb((0..n).map(mk_stream).collect())
         }
+        5 => {
+            let mut s = FuturesOrderedBounded::new(n);
+            for i in 0..upfront {
+                if rng.gen_bool(0.3) {
+                    s.push_front(mk_fut(i));
+                } else {
+                    s.push_back(mk_fut(i));
+                }
+            }
+            Subj::Fob(s)
+        }
+        6 => {
+            let lim = rng.gen_range(1..=n);
+            let src = FutSource {
+                futs: (0..n).map(|i| Some(mk_fut(i))).collect(),
+                next: 0,
+            };
+            Subj::Bu(Box::pin(src.buffered_unordered(lim)))
+        }
+        7 => {
+            let lim = rng.gen_range(1..=n);
+            let src = FutSource {
+                futs: (0..n).map(|i| Some(mk_fut(i))).collect(),
+                next: 0,
+            };
+            Subj::Bo(Box::pin(src.buffered_ordered(lim)))
+        }
+        8 => Subj::Ja(join_all((0..n).map(mk_fut))),
         _ => {
             let mut s = MergeUnbounded::new();
             for i in 0..upfront {
@@ -443,7 +517,7 @@ pub fn scenario(mode: Mode, max_threads: usize, max_children: usize) {
             Subj::Mu(s)
         }
     };
-    let upfront = if kind == 3 { n } else { upfront };
+    let upfront = if matches!(kind, 3 | 6 | 7 | 8) { n } else { upfront };
 
     // per-thread op lists: each child is owned by one thread, which fires it last
     let mut per_thread: Vec<Vec<(usize, WOp)>> = vec![vec![]; n_threads];
@@ -528,6 +602,11 @@ pub fn scenario(mode: Mode, max_threads: usize, max_children: usize) {
             gate.open();
         }
         match out {
+            Out::Joined(v) => {
+                reg::note_order(6);
+                assert_eq!(v, (0..n).collect::<Vec<_>>(), "C04/C07: join_all result");
+                break;
+            }
             Out::Fut(i) => {
                 reg::note_order(10 + i as u64);
                 assert!(!got_futs[i], "C02: output of child {} yielded twice", i);
@@ -551,7 +630,8 @@ pub fn scenario(mode: Mode, max_threads: usize, max_children: usize) {
                     Subj::Fu(s) => s.push(mk_fut(pushed)),
                     Subj::Fo(s) => s.push_back(mk_fut(pushed)),
                     Subj::Mu(s) => s.push(mk_stream(pushed)),
-                    Subj::Mb(_) => unreachable!(),
+                    Subj::Fob(s) => s.push_back(mk_fut(pushed)),
+                    Subj::Mb(_) | Subj::Bu(_) | Subj::Bo(_) | Subj::Ja(_) => unreachable!(),
                 }
                 pushed += 1;
                 continue;
@@ -566,7 +646,8 @@ pub fn scenario(mode: Mode, max_threads: usize, max_children: usize) {
                         Subj::Fu(s) => s.push(mk_fut(pushed)),
                         Subj::Fo(s) => s.push_back(mk_fut(pushed)),
                         Subj::Mu(s) => s.push(mk_stream(pushed)),
-                        Subj::Mb(_) => unreachable!(),
+                        Subj::Fob(s) => s.push_back(mk_fut(pushed)),
+                        Subj::Mb(_) | Subj::Bu(_) | Subj::Bo(_) | Subj::Ja(_) => unreachable!(),
                     }
                     pushed += 1;
                     continue;
@@ -581,7 +662,8 @@ pub fn scenario(mode: Mode, max_threads: usize, max_children: usize) {
                 Subj::Fu(s) => s.push(mk_fut(pushed)),
                 Subj::Fo(s) => s.push_back(mk_fut(pushed)),
                 Subj::Mu(s) => s.push(mk_stream(pushed)),
-                Subj::Mb(_) => unreachable!(),
+                Subj::Fob(s) => s.push_back(mk_fut(pushed)),
+                Subj::Mb(_) | Subj::Bu(_) | Subj::Bo(_) | Subj::Ja(_) => unreachable!(),
             }
             pushed += 1;
         }
